@@ -53,7 +53,8 @@ def run(tier, seed):
     fam = ce.pair_family()
     if tier == "quick":
         rng.shuffle(fam)
-        fam = [x for x in fam if "_eq" in x[0]][:60] + [x for x in fam if "_eq" not in x[0]][:260]
+        special = lambda n: "_eq" in n or "insb_" in n
+        fam = [x for x in fam if special(x[0])][:110] + [x for x in fam if not special(x[0])][:230]
     else:
         fam += ce.triple_family(rng, 150)
     fam += ce.aba_family()
